@@ -11,5 +11,14 @@ let run (line : string) : string =
   | None -> "outoffuel"
   | Some r ->
       let p = r.pr_program in
-      Printf.sprintf "errs=%d m=%s wf=%s mL=%s wfL=%s" (min 1 (List.length r.pr_errors)) (b01 (m_program p toks)) (b01 (wf_program p))
-        (b01 (m_programL p toks)) (b01 (wf_programL p))
+      if Sys.getenv_opt "TPDEBUG" <> None && r.pr_errors = [] && not (token_preserving p toks) then
+        Printf.eprintf "OUT %s\nSRC %s\n" (Util.string_of_str (wops_text (write_program p))) (Util.string_of_str (toks_text toks));
+      let pe = tmap_program erase_comments p in
+      let tab = [Util.n_of_int 9] in
+      let ct = code_tokens (cfg_compact false) p toks && code_tokens (cfg_pretty tab false false) pe toks
+               && code_tokens (cfg_pretty [] true true) pe toks in
+      let pieces cfg q = (compile cfg q).r_panic ||
+        nolayout (compile cfg q).r_code = nolayout (wops_bytes cfg (write_program q)) in
+      let pc = pieces (cfg_compact true) p && pieces (cfg_pretty tab false false) p && pieces (cfg_pretty [] true true) p in
+      Printf.sprintf "errs=%d m=%s wf=%s mL=%s wfL=%s tp=%s ct=%s pc=%s" (min 1 (List.length r.pr_errors)) (b01 (m_program p toks)) (b01 (wf_program p))
+        (b01 (m_programL p toks)) (b01 (wf_programL p)) (b01 (token_preserving p toks)) (b01 ct) (b01 pc)
